@@ -291,9 +291,13 @@ inductive Op where
   | construct (kind : Kind) (n : Nat) (h a : Option Nat)
   /-- `reinitialize_parameters()` -/
   | reinit (slot : Nat)
-  /-- `sample(k, num_samples, initial_state)`; `init = some rows` if an initial state is given -/
-  | sample (slot k num : Nat) (init : Option Nat)
-  /-- `Observable.statistics` / `System.statistics`; `arg` identifies the observables -/
+  /-- `sample(k, num_samples, initial_state, overwrite)`; `init = some rows` if an initial state is given (its row
+  count: all the frame needs); `arg` identifies the CONTENT of the initial state and the `overwrite` flag — the value
+  returned is a function of that content (neural_state.py:124-131: `gibbs_steps(k, initial_state)`; `k = 0` returns the
+  start chains themselves), so two calls that differ only there are different operations -/
+  | sample (slot k num : Nat) (init : Option Nat) (arg : Nat)
+  /-- `Observable.statistics` / `System.statistics`; `arg` identifies the observables, the content of `initial_state`
+  and the `overwrite` flag -/
   | statistics (slot numSamples numChains burnIn steps : Nat) (init : Option Nat) (arg : Nat)
   /-- `fit(data, …)` -/
   | fit (slot : Nat) (cfg : FitCfg)
@@ -308,7 +312,8 @@ inductive Op where
   /-- `compute_batch_gradients(k, samples, neg_batch)` with `rows` negative-phase rows -/
   | batchGradient (slot k rows arg : Nat)
   /-- `Observable.sample(nn_state, k, num_samples, initial_state, overwrite)` (observable.py:107-133):
-  `nn_state.sample(…)` followed by `apply`; `arg` identifies the observable -/
+  `nn_state.sample(…)` followed by `apply`; `arg` identifies the observable, the content of `initial_state` and
+  the `overwrite` flag -/
   | obsSample (slot k num : Nat) (init : Option Nat) (arg : Nat)
   /-- `save(path)` -/
   | save (slot path : Nat)
@@ -327,7 +332,7 @@ inductive Op where
 /-- the state object an operation addresses -/
 def Op.slot? : Op → Option Nat
   | .reinit i => some i
-  | .sample i _ _ _ => some i
+  | .sample i _ _ _ _ => some i
   | .statistics i _ _ _ _ _ _ => some i
   | .fit i _ => some i
   | .eval i _ => some i
@@ -361,7 +366,7 @@ def Op.isPure : Op → Bool
 def Op.plan (op : Op) (A : Arch) : List Call × Option Err :=
   match op with
   | .reinit _ => (initCalls A, none)
-  | .sample _ k num init => (sampleCalls A k num init, none)
+  | .sample _ k num init _ => (sampleCalls A k num init, none)
   | .statistics _ ns nc bi stp init _ => statCalls A ns nc bi stp init
   | .fit _ cfg => fitCalls A cfg
   | .batchGradient _ k rows _ => (gibbsCalls A k rows, none)
@@ -560,7 +565,7 @@ def Op.code : Op → List Nat
   | .burn m => [2, m]
   | .construct k n h a => [3, k.code, n] ++ optCode h ++ optCode a
   | .reinit _ => [4]
-  | .sample _ k num init => [5, k, num] ++ optCode init
+  | .sample _ k num init arg => [5, k, num, arg] ++ optCode init
   | .statistics _ ns nc bi st init arg => [6, ns, nc, bi, st, arg] ++ optCode init
   | .fit _ c => 7 :: c.code
   | .eval _ arg => [8, arg]
